@@ -876,6 +876,19 @@ example : spmDecode spmData.vocab (spmEncode spmData.vocab (spmData.specialsOf (
 example : NoByteLit spmVocab [97, 32, 97] := noByteLit_of_no_lt _ _ (by decide)
 
 
+/-- `idVocab` without a token for `b` (0x62) -/
+def holeVocab : Vocab := { idVocab with tokId := fun s => if s = [98] then none else idVocab.tokId s }
+
+/-- **The covering hypothesis is necessary, and "ids in range" does not imply "nothing dropped"**: with a vocabulary that
+    lacks one byte, `"abc"` encodes to ids that are all in range and decodes to `"ac"` — the part that is not a token is
+    silently dropped by the final loop (the `TODO` in the source). -/
+theorem bpe_cover_needed_witness :
+    bpeEncode false holeVocab byteSplit [] noAdd [97, 98, 99] = [97, 99] ∧
+    (∀ i ∈ bpeEncode false holeVocab byteSplit [] noAdd [97, 98, 99], i < holeVocab.size) ∧
+    bpeDecode holeVocab (bpeEncode false holeVocab byteSplit [] noAdd [97, 98, 99]) = [97, 99] := by
+  decide
+
+
 /-- **The Go merge procedure with its array and stored pointers** (`Proofs/TokenizerPtr.lean`) leaves the model's parts -/
 theorem merge_go_array_refines (cfg : Cfg) (rs : Str) : goMergeAll cfg rs = mergeAll cfg rs := goMergeAll_eq cfg rs
 
